@@ -21,3 +21,6 @@ func VerifC12DSOrder(records []dns.RR) []*dns.DS { return uniqueSortedDSRecords(
 
 // VerifC12MaxNSEC3HashMemoEntries is the entry ceiling of one request tree's NSEC3 hash memo.
 func VerifC12MaxNSEC3HashMemoEntries() int { return maxNSEC3HashMemoEntries }
+
+// VerifC12MaxNSEC3Iterations is the iteration count above which an NSEC3 record is unusable.
+func VerifC12MaxNSEC3Iterations() int { return maxNSEC3Iterations }
